@@ -198,7 +198,17 @@ func Reps() []*rm.Value {
 		rm.StrV(""), rm.StrV("s"), rm.StrV("a'''b\n"),
 		rm.ClobV([]byte("c")), rm.BlobV([]byte{0xff, 0xff}), rm.BlobV(nil),
 		rm.ListV(), rm.ListV(rm.IntV(1)), rm.SexpV(), rm.SexpV(rm.SymV("+")), rm.StructV(), rm.StructV(rm.IntV(1).F("f")),
+		// long payloads: the writers take a different path from 64 bytes up
+		rm.BlobV(seqBytes(64)), rm.ClobV(seqBytes(200)), rm.BigV(pow2(600)), rm.BigV(new(big.Int).Neg(pow2(520))), rm.StrV(strings.Repeat("L", 70)),
 	}
+}
+
+func seqBytes(n int) []byte {
+	b := make([]byte, n)
+	for i := range b {
+		b[i] = byte(32 + i%90)
+	}
+	return b
 }
 
 // AnnotSets returns the annotation sets.
